@@ -143,7 +143,9 @@ ScanFails(o, dj, verify, p) ==
         s   == Scan(o.idx, ok, bad, verify)
     IN  IF ~o.orph.on THEN {} ELSE
         UNION {
-          Fail(SeqToSet(o.orph.orphaned) = s.orphaned /\ Len(o.orph.orphaned) = Cardinality(s.orphaned), p \o ":orphaned"),
+          \* a file at the canonical path of a hash that is not one of the named contents is reported as "?"
+          Fail(SeqToSet(o.orph.orphaned) \ {"?"} = s.orphaned
+               /\ Len(o.orph.orphaned) = Cardinality(s.orphaned) + dj.casunk, p \o ":orphaned"),
           Fail(SeqToSet(o.orph.missing) = s.missing /\ Len(o.orph.missing) = Cardinality(s.missing), p \o ":missing"),
           Fail(SeqToSet(o.orph.corrupted) = s.corrupted /\ Len(o.orph.corrupted) = Cardinality(s.corrupted), p \o ":corrupted"),
           Fail(o.orph.invalid = dj.junk, p \o ":invalid"),
@@ -225,8 +227,10 @@ DamageFails(base, ln) ==
         ex == ApplyRecs(IxOf(base.snap.idx), P, base.snap.ver).idx
     IN  UNION {
           Fail(ln.rec.res.val # "panic", "C10:panic"),
+          \* (blobs that later operations reclaimed cannot come back with a shortened log: only the
+          \*  index state is required to be the prefix state, not the readability of its blobs)
           Fail(~ln.rec.res.ok \/ ln.rec.obs.idx = ex, "C10:accepted-non-prefix-state"),
-          IF ln.rec.res.ok THEN ReadsFails(ln.rec.obs, "C10") ELSE {}
+          IF ln.rec.res.ok THEN CountFails(ln.rec.obs) ELSE {}
         }
 
 (***************************************************************************)
@@ -246,7 +250,7 @@ PlantFails(mb, ln) ==
           Fail(co.idx = o.idx, "C08:cleanup-changed-index"),
           Fail(\A c \in live : (c \in SeqToSet(dj.cas) => c \in SeqToSet(co.disk.cas))
                               /\ (c \in SeqToSet(dj.casbad) => c \in SeqToSet(co.disk.casbad)), "C08:cleanup-removed-live-blob"),
-          Fail((SeqToSet(co.disk.cas) \cup SeqToSet(co.disk.casbad)) \subseteq live, "C08:orphan-left"),
+          Fail((SeqToSet(co.disk.cas) \cup SeqToSet(co.disk.casbad)) \subseteq live /\ co.disk.casunk = 0, "C08:orphan-left"),
           Fail(co.disk.junk = 0, "C08:invalid-file-left"),
           Fail(co.disk.stg = 0, "C08:staging-left")
         }
